@@ -24,6 +24,7 @@ from mc.ref import opalgebra as A
 PROPERTY = 'C04'
 BUDGET = {'quick': 600, 'thorough': 3000}
 
+UNSPEC = 'unspecified'      # pseudo-symptom: documentation leaves the case open
 TOL_INEXACT = 1e-12         # relative to the largest magnitude met while evaluating
 
 
@@ -125,10 +126,14 @@ def _flat(y, ran):
     return np.array(y.asarray(), copy=True).ravel()
 
 
+MODE = [0, 0]       # comparisons made with exact equality / with the tolerance (per state)
+
+
 def _close(got, ref, tr):
     """Exact equality when no rounding can have occurred (see `opalgebra.ref_eval`), else a
     fixed tolerance relative to the largest intermediate magnitude."""
     got, ref = np.asarray(got), np.asarray(ref)
+    MODE[0 if tr[1] else 1] += 1
     if got.shape != ref.shape:
         return False
     if tr[1]:
@@ -194,16 +199,16 @@ def check(e, env, pre=None):
     used = list(env.used)
     evals = 1
     head = 'expr = %s; ' % A.src(e)
+    if isinstance(op, _FN) and ran in A.FIELDS and A.FIELD_OF[dom] != ran:
+        # `Functional`: "an operator f that maps from some domain X to the field of scalars F
+        # associated with the domain" - a Functional composed with an operator coming from a
+        # space over the other field cannot satisfy this and have the range of f: the
+        # documentation leaves it open; counted, not judged, not used as an operand
+        return [(UNSPEC, '')], evals, op, None
     if op.domain != env.sp[dom]:
         viol.append(('domain_differs', head + 'expected domain %s, got %r' % (dom, op.domain)))
     if op.range != env.sp[ran]:
-        # `Functional`: "an operator f that maps from some domain X to the field of scalars F
-        # associated with the domain", whereas a composition f * A has the range of f: between
-        # a real and a complex space the two documented rules disagree -> either is accepted
-        if not (isinstance(op, _FN) and ran in A.FIELDS
-                and op.range == env.sp[A.FIELD_OF[dom]]):
-            viol.append(('range_differs',
-                         head + 'expected range %s, got %r' % (ran, op.range)))
+        viol.append(('range_differs', head + 'expected range %s, got %r' % (ran, op.range)))
     if viol:
         return viol, evals, op, None
     flag = bool(op.is_linear)
@@ -322,6 +327,7 @@ def run(cfg):
     child = cfg['child']
     pool = A.POOLS[cfg['pool']]
     env = _Env()
+    MODE[0] = MODE[1] = 0
     tc = A.typeof(child)
     assert tc is not None, 'ill-typed child enumerated'
     # the child itself is judged by the state that generated it; here it only has to be sound
@@ -335,6 +341,9 @@ def run(cfg):
         partners = []
         exprs = A.roots_over(child, pool)
     if cviol:
+        if cviol[0][0] == UNSPEC:
+            return {'evals': 0, 'skipped': len(exprs) + 1, 'sig': 'child-unspecified',
+                    'trivial': True, 'viol': [], 'nexpr': 0}
         res = {'evals': cevals, 'skipped': len(exprs), 'sig': 'child-violates',
                'trivial': not is_leaf, 'viol': [], 'nexpr': 0}
         if is_leaf:
@@ -378,6 +387,9 @@ def run(cfg):
             skipped += 1
             continue
         viol, ne, op, flag = check(e, env, pre)
+        if viol and viol[0][0] == UNSPEC:
+            skipped += 1
+            continue
         evals += ne
         nexpr += 1
         site = site_of(e, env, pre)
@@ -389,7 +401,7 @@ def run(cfg):
                 first[(site, sym)] = det
     return {'evals': evals, 'skipped': skipped, 'sig': sorted(sigs), 'trivial': nexpr == 0,
             'viol': [{'site': s, 'symptom': y, 'detail': d} for (s, y), d in first.items()],
-            'nexpr': nexpr}
+            'nexpr': nexpr, 'cmp': list(MODE)}
 
 
 def summarize(results):
@@ -399,7 +411,10 @@ def summarize(results):
         k = 'size%d/%s/%s' % (A.size(c['child']) + (2 if c['mode'] == 'pairs' else 1),
                               c['pool'], c['mode'])
         by[k] = by.get(k, 0) + r.get('nexpr', 0)
-    return {'expressions_checked': n, 'expressions_by_level': by}
+    ex = sum(r.get('cmp', [0, 0])[0] for _, r in results)
+    tol = sum(r.get('cmp', [0, 0])[1] for _, r in results)
+    return {'expressions_checked': n, 'expressions_by_level': by,
+            'comparisons_exact_equality': ex, 'comparisons_with_tolerance': tol}
 
 
 def trace_functions():
@@ -440,6 +455,12 @@ def meta(tier):
                 'largest intermediate magnitude). '
                 'distinct = (overload[operand kinds]/regime, resulting class, is_linear, symptoms).',
         'bounds': b,
+        'extra': {'unreached_anchor_lines_explained':
+                  'all unreached lines are (i) the `raise` statements and `return NotImplemented` '
+                  'arms for ill-typed operands (not enumerated: the property quantifies over '
+                  'well-typed trees), incl. Functional.__mul__ falling through to Operator.__mul__ '
+                  'for a scalar outside the field, and (ii) the branches for user-supplied '
+                  'temporaries (tmp / tmp_ran / tmp_dom), which no overload passes'},
         'assumptions': [
             'well-typedness follows the Parameters sections of Operator.__mul__/__rmul__/'
             '__add__/__truediv__/__pow__ and Functional.__mul__/__rmul__/__add__: scalars in '
@@ -448,5 +469,16 @@ def meta(tier):
             'an expression whose operand already violates is not judged again (counted as '
             'skipped); the operand is reported by the state that generated it',
             'A / a is enumerated only for scalars in both fields and a != 0',
+            'unspecified (counted under unspecified_skipped, not judged, not reused as operands): '
+            'E * a and E / a for E defined on a field (Operator.__mul__ and the class docstring '
+            'require a LinearSpace domain, the constructor docstring admits a Field); results '
+            'that are Functional instances although the field of their domain differs from '
+            'their range (f * A with A from a space over the other field: contradicts the '
+            'definition of Functional)',
+            'exact equality is demanded when every intermediate value of the reference '
+            'evaluation is a multiple of 2^-12 of magnitude < 2^12 (products of two such numbers '
+            'need <= 48 bits, so no rounding can occur whatever the association order; the '
+            'scalars 2, -1, 1/2, 0, 1j never round); otherwise |got - ref| <= 1e-12 * max(1, '
+            'largest intermediate magnitude)',
         ],
     }
